@@ -64,7 +64,8 @@ def run(ctx):
                 "fact_auth_selector_is_url_path", "fact_auth_skipper_negated", "fact_auth_path", "fact_auth_installed_with_use",
                 "fact_internal_binds", "fact_policy", "fact_best_practices_conditions", "fact_acceptable_algs_asymmetric",
                 "fact_registered_first_segments", "fact_default_addresses_differ", "fact_auth_types", "configure_auth_sound",
-                "fact_authorized_keys", "authorized_keys_sound"]
+                "fact_authorized_keys", "authorized_keys_sound", "commented_out_line_is_dead", "text_after_hash_is_ignored",
+                "fact_middleware_stateless", "decision_independent_of_history"]
     for r in required:
         if not any(t.endswith("Props." + r) for t in thms):
             ctx.oblige("thm-present:" + r, False, "theorem missing or its module does not build")
